@@ -35,6 +35,7 @@ DEFAULT = {
     "p_kwonly": 0.2,           # the own parameters of utility (and of next_w) are declared keyword-only: def utility(c, w, *, k)
     "pad_states": 0,           # number of extra discrete states x0, x1, ... with one (sometimes two) labels and identity transitions:
                                # models with many variables (17+) at the cost of few cells
+    "p_int_arith": 0.3,        # a payoff term built by INTEGER arithmetic on the restricted variables that goes negative: c * (a - r - 1)
     "p_near_tie": 0.15,        # large utility level + tiny dyadic premia on the discrete choices: near-ties (relative 1e-5)
     "p_dead_label": 0.0,       # (models without continuous state) the last label of h admits no choice: value -inf, reachable
     "p_state_only_filter": 0.15,  # the filter restricts states only: no restricted choice, every discrete choice unrestricted
@@ -139,7 +140,7 @@ def _rand_model_once(rng, P):  # noqa: C901, PLR0912, PLR0915
         vars_.append(mkvar("h", "state", "disc", nh))
     if has_w:
         if log_w:
-            first = rng.choice([F(1), F(2), F(1, 2)])
+            first = F(rng.choice(P.get("log_first") or [F(1), F(2), F(1, 2)]))
             nodes = [first * 2 ** k for k in range(nw)]
             log_lo, log_hi = nodes[0], nodes[-1]
             vars_.append(mkvar("w", "state", "log", nw, nodes=nodes))
@@ -315,6 +316,10 @@ def _rand_model_once(rng, P):  # noqa: C901, PLR0912, PLR0915
         if names:
             terms.append(["tab", names, tab])
             uargs += names
+    if has_r and has_a and "a" not in drop and "r" not in drop and has("p_int_arith"):
+        # a switching-cost-like term: labels are integers, (a - r - 1) is negative for most combinations
+        terms.append(mul(const(rng.choice([1, 2, -1])), ["sub", ["sub", var("a"), var("r")], const(1)]))
+        feat["int_arith"] = True
     if T > 1 and has("p_period_util"):
         terms.append(mul(ci(-2, 2), var("_period")))
         uargs.append("_period")
